@@ -42,6 +42,7 @@ def main():
   ap.add_argument("--prop")
   ap.add_argument("--tier", default="quick")
   ap.add_argument("--seeded", action="store_true")
+  ap.add_argument("--dry", action="store_true", help="only check that every mutant still applies")
   ap.add_argument("--all-checks", action="store_true", help="run every registered check against each mutant")
   args = ap.parse_args()
   muts = []
@@ -74,7 +75,15 @@ def main():
           print("MUTANT %-40s patch failed: %s" % (m["name"], r.stdout[-300:]))
           continue
       else:
-        apply_edit(tree, m)
+        try:
+          apply_edit(tree, m)
+        except RuntimeError as e:
+          print("MUTANT %-44s STALE   %s" % (m["name"], e))
+          results.append(False)
+          continue
+      if args.dry:
+        print("MUTANT %-44s applies" % m["name"])
+        continue
       props = m["property"] if isinstance(m["property"], list) else [m["property"]]
       caught = []
       for pr in props:
